@@ -24,10 +24,12 @@ def bracket(xp, x):
     return i0, i1, t
 
 
-def ref_interp_axis0(xp, vals, x, nearest=False):
+def ref_interp_axis0(xp, vals, x, nearest=False, exact=False):
     """xp: (n,) strictly monotonic floats; vals: (n, ...) with NaN; x: (m,) targets.
     NaN rule: a node is dropped when any element of its slab is NaN (node level) or when its
     weight is zero; result = sum(w v)/sum(w) if sum(w) > 0.5 else NaN.
+    exact=True: grid and targets are dyadic rationals (all differences and the quotient are computed without
+    rounding by any implementation), so "valid weight exceeds one half" is decidable: exactly 1/2 -> missing.
     returns (out (m, ...), tie (m,) bool: nearest-mode ties where either neighbour is acceptable,
              alt (m, ...) the alternative value for ties)"""
     xp = np.asarray(xp, float)
@@ -69,7 +71,7 @@ def ref_interp_axis0(xp, vals, x, nearest=False):
             # exactly half of the weight valid (to rounding): "exceeds one half" is undecidable -> either
             if node_ok[i0] != node_ok[i1]:
                 wvalid = (1.0 - t) if node_ok[i0] else t
-                if abs(wvalid - 0.5) < 1e-9:
+                if abs(wvalid - 0.5) < 1e-9 and not (exact and wvalid == 0.5):
                     tie[j] = True
                     alt[j] = vals[i0] if node_ok[i0] else vals[i1]
                     if not np.all(np.isnan(out[j])):
